@@ -7,6 +7,9 @@ CONSTANTS
   DropChoices <- DropsLF
   H = 1
   PStalls = {0}
+  ConsumerStyles = {"block", "poll"}
+  StylesEverywhere = TRUE
+  PollingHelper = FALSE
   Observe = FALSE
   SkipIdxStep = FALSE
   CStalls = {0}
